@@ -71,7 +71,8 @@ fn parse_undefined() -> Result<Amf0Value, Amf0DeserializationError> {
 fn parse_bool<R: Read>(bytes: &mut R) -> Result<Amf0Value, Amf0DeserializationError> {
     let value = bytes.read_u8()?;
 
-    if value == 1 {
+    // Per the AMF0 specification a zero byte is false and any non-zero byte is true
+    if value != 0 {
         Ok(Amf0Value::Boolean(true))
     } else {
         Ok(Amf0Value::Boolean(false))
